@@ -16,6 +16,11 @@ import Rsa.Lemmas.C03Whiten
 import Rsa.Lemmas.C03Rho
 import Rsa.Lemmas.C03Cka
 import Rsa.Lemmas.C03PosDef
+import Rsa.Lemmas.C03RhoRange
+import Rsa.Lemmas.C03PosDefVec
+import Rsa.Lemmas.C03Coded3
+import Rsa.Lemmas.C03BuresBridge
+import Rsa.Lemmas.C03Gram
 import Mathlib.Tactic.IntervalCases
 import Mathlib.Algebra.BigOperators.Field
 
@@ -827,5 +832,360 @@ theorem whitened_none_props (n : ℕ) (r1 r2 s1 s2 : List ℝ)
   ⟨whitened_symm (getV_none_posDef n) r1 r2 s1 s2 l1 l2 e1 e2,
    fun v hv => whitened_abs_le_one (getV_none_posDef n) r1 r2 s1 s2 l1 l2 e1 e2 v hv,
    fun h => whitened_self (getV_none_posDef n) r1 s1 l1 e1 h⟩
+
+/-! # Round 3 -/
+
+/-! ## 12. rho-a lies in [-1, 1] (closes `rhoA_range_partial`) -/
+
+/-- the centred sum of squares of tie-averaged ranks is at most `(n³ − n)/12`, its value for
+    the untied ranks `1..n` — for every vector, with arbitrary ties -/
+theorem rank_sum_sq_le (x : List ℝ) :
+    dot (center (avgRank x)) (center (avgRank x)) ≤ ((x.length : ℝ) ^ 3 - x.length) / 12 :=
+  rankSS_le x
+
+/-- **rho-a lies in [-1, 1]** for all vectors of equal length (Cauchy–Schwarz and
+    `rank_sum_sq_le`) -/
+theorem rhoA_range (x y : List ℝ) (h : x.length = y.length) : |rhoA x y| ≤ 1 := by
+  by_cases hn : 2 ≤ x.length
+  · have hp := rhoA_range_partial x y hn
+    have hn' : (2 : ℝ) ≤ (x.length : ℝ) := by exact_mod_cast hn
+    have hpos : 0 < (x.length : ℝ) ^ 3 - x.length := by nlinarith [sq_nonneg ((x.length : ℝ) - 1)]
+    set Bd : ℝ := ((x.length : ℝ) ^ 3 - x.length) / 12 with hB
+    have hBpos : 0 < Bd := by rw [hB]; positivity
+    have sx := rank_sum_sq_le x
+    have sy := rank_sum_sq_le y
+    rw [← h] at sy
+    have hsq : Real.sqrt (dot (center (avgRank x)) (center (avgRank x)) *
+        dot (center (avgRank y)) (center (avgRank y))) ≤ Bd := by
+      rw [show Bd = Real.sqrt (Bd * Bd) from (Real.sqrt_mul_self hBpos.le).symm]
+      apply Real.sqrt_le_sqrt
+      exact mul_le_mul sx sy (dot_self_nonneg _) hBpos.le
+    calc |rhoA x y| ≤ 12 / ((x.length : ℝ) ^ 3 - x.length) * Real.sqrt _ := hp
+      _ ≤ 12 / ((x.length : ℝ) ^ 3 - x.length) * Bd :=
+          mul_le_mul_of_nonneg_left hsq (div_pos (by norm_num) hpos).le
+      _ = 1 := by
+          rw [hB]
+          generalize ((x.length : ℝ) ^ 3 - x.length) = X at hpos ⊢
+          have hX : X ≠ 0 := hpos.ne'
+          field_simp
+  · have h01 : x.length = 0 ∨ x.length = 1 := by omega
+    have hz : (x.length : ℝ) ^ 3 - x.length = 0 := by
+      rcases h01 with e | e <;> rw [e] <;> norm_num
+    rw [rhoA_def, hz, div_zero, zero_mul, abs_zero]
+    exact zero_le_one
+
+/-- the statement kept as a `def` since round 1 is now a theorem -/
+theorem rhoA_range_full_holds : rhoA_range_full := fun x y h => rhoA_range x y h
+
+example : |rhoA ([1, 1, 2, 5] : List ℝ) [3, 0, 0, 0]| ≤ 1 := rhoA_range _ _ rfl
+
+/-! ## 13. `V` is positive definite for every variance vector -/
+
+/-- the `SymPosDef` hypothesis of section 6 is a theorem when `sigma_k` is a vector of positive
+    variances, for every number of conditions -/
+theorem getV_vec_posDef (n : ℕ) (v : List ℝ) (hv : ∀ k, k < n → 0 < v.getD k 0) :
+    SymPosDef (getV n (SigmaK.vec v)) (triLen n) := symPosDef_getV_vec n v hv
+
+/-- hence, with a variance vector and no hypothesis on `V`: symmetric, within [-1, 1], 1 with
+    itself, whatever solver produced the solutions -/
+theorem whitened_vec_props (n : ℕ) (v : List ℝ) (hv : ∀ k, k < n → 0 < v.getD k 0)
+    (r1 r2 s1 s2 : List ℝ) (l1 : s1.length = triLen n) (l2 : s2.length = triLen n)
+    (e1 : matVec (getV n (SigmaK.vec v)) s1 = r1) (e2 : matVec (getV n (SigmaK.vec v)) s2 = r2) :
+    wcosFrom r1 r2 s1 s2 = wcosFrom r2 r1 s2 s1 ∧
+    (∀ w, wcosFrom r1 r2 s1 s2 = some w → |w| ≤ 1) ∧
+    ((∃ c ∈ r1, c ≠ 0) → wcosFrom r1 r1 s1 s1 = some 1) :=
+  ⟨whitened_symm (getV_vec_posDef n v hv) r1 r2 s1 s2 l1 l2 e1 e2,
+   fun w hw => whitened_abs_le_one (getV_vec_posDef n v hv) r1 r2 s1 s2 l1 l2 e1 e2 w hw,
+   fun h => whitened_self (getV_vec_posDef n v hv) r1 s1 l1 e1 h⟩
+
+-- non-vacuity: three conditions with variances 1/2, 1, 3
+example : ∀ k, k < 3 → (0 : ℝ) < ([1 / 2, 1, 3] : List ℝ).getD k 0 := by
+  intro k hk; interval_cases k <;> norm_num
+
+/-! ## 14. the two `_sort_and_rank` passes of `_tau_a` and its tie counts -/
+
+section passes
+variable {K : Type} [Field K] [LinearOrder K] [IsStrictOrderedRing K]
+
+/-- the running count of changes of a sorted vector is an order-equivalent relabelling:
+    `a < b ↔ rank a < rank b`, and the ranks never decrease -/
+theorem denseRanks_order (s : List K) (hs : s.Pairwise (· ≤ ·)) :
+    (denseRanks s).length = s.length ∧
+    (s.zip (denseRanks s)).Pairwise (fun t u => (t.1 < u.1 ↔ t.2 < u.2) ∧ t.2 ≤ u.2) := by
+  obtain ⟨h1, h2⟩ := denseRanks_spec s hs
+  exact ⟨h1, h2.imp (fun {t u} h => ⟨h.1, not_lt.mp h.2.2⟩)⟩
+
+example : denseRanks ([2, 2, 5, 7, 7] : List ℚ) = [1, 1, 2, 3, 3] := by decide +kernel
+
+/-- one `_sort_and_rank(v1, v2)` pass keeps all five pair counts and returns the entries sorted
+    by the (ranked) second vector -/
+theorem sortAndRank_keeps_counts (v1 v2 : List K) (h : v1.length = v2.length) :
+    counts5 ((sortAndRank v1 v2).1.zip (sortAndRank v1 v2).2) = counts5 (v1.zip v2) ∧
+    ((sortAndRank v1 v2).1.zip (sortAndRank v1 v2).2).Pairwise (fun p q => p.2 ≤ q.2) :=
+  ⟨(sortAndRank_spec v1 v2 h).2.2.1, (sortAndRank_spec v1 v2 h).2.2.2.1⟩
+
+/-- **after the two passes** the rank vectors have equal length, are sorted by x and among equal
+    x by y (what `_kendall_dis` requires), and have the concordant / discordant / tie counts of
+    the input -/
+theorem tauA_passes_sorted_counts (x y : List K) (h : x.length = y.length) :
+    (tauAPasses x y).1.length = (tauAPasses x y).2.length ∧
+    ((tauAPasses x y).1.zip (tauAPasses x y).2).Pairwise lexLE ∧
+    counts5 ((tauAPasses x y).1.zip (tauAPasses x y).2)
+      = (nCon x y, nDis x y, nTieX x y, nTieY x y, nTieXY x y) :=
+  tauAPasses_spec x y h
+
+-- (concrete values of the passes, e.g. `tauAPasses [3,1,1,2] [5,5,4,9] = ([1,1,2,3], [1,2,3,2])`, are
+-- compared with the real `_sort_and_rank` by the correspondence, kind `passes`)
+example : ([3, 1, 1, 2] : List ℚ).length = ([5, 5, 4, 9] : List ℚ).length := rfl
+
+/-- on lexicographically sorted rank pairs `(cnt·(cnt−1)//2).sum()` over the runs of equal
+    adjacent pairs is the number of jointly tied pairs (leaf `runTie`) -/
+theorem runTies_counts_joint_ties (l : List (ℕ × ℕ)) (hl : l.Pairwise lexLE) :
+    runTies l = countPairs tieXYH l := runTies_eq l hl
+
+example : [((1 : ℕ), (1 : ℕ)), (1, 1), (1, 2), (2, 2), (2, 2), (2, 2)].Pairwise lexLE := by
+  unfold lexLE; decide
+
+/-- `_count_rank_tie`: the bincount formula is the number of tied pairs of a rank vector
+    (leaves `rankTie`, `rankTieKeep`) -/
+theorem bincountTies_counts_ties (r : List ℕ) :
+    bincountTies r = countPairs (fun a b => tiedB a b) r := bincountTies_eq r
+
+/-- **`_tau_a` as coded** — two sort-and-rank passes, run-length joint ties, bincount ties, the
+    regenerated arithmetic and clamp — **equals the definition** `(con − dis)/C(n,2)`, for every
+    `_kendall_dis` that returns the number of discordant pairs of lexicographically sorted
+    rank vectors (its documented contract) -/
+theorem tauA_twoPass_eq_spec (kdis : List ℕ → List ℕ → ℕ)
+    (hk : ∀ a b : List ℕ, a.length = b.length → (a.zip b).Pairwise lexLE →
+      kdis a b = countPairs discordantH (a.zip b))
+    (x y : List K) (h : x.length = y.length) :
+    tauATwoPass kdis x y = tauASpec x y ∧ tauATwoPass kdis x y = tauA x y := by
+  have e := tauATwoPass_eq_tauA kdis hk x y h
+  exact ⟨e.trans (tauA_algo_eq_spec x y h), e⟩
+
+-- non-vacuity: the reference counter used by the driver satisfies the contract
+example : ∀ a b : List ℕ, a.length = b.length → (a.zip b).Pairwise lexLE →
+    kendallDisRef a b = countPairs discordantH (a.zip b) := fun _ _ _ _ => rfl
+
+end passes
+
+/-! ## 15. variants that call the regenerated leaves equal the model -/
+
+/-- `_cosine` with the guard `norm > 0` and the two divisions taken from the source text -/
+theorem cosine_coded_eq (x y : List ℝ) :
+    cosineCoded x y = cosine x y ∧ corrCoded x y = corr x y ∧ spearmanCoded x y = spearman x y :=
+  ⟨cosineCoded_eq x y, corrCoded_eq x y, spearmanCoded_eq x y⟩
+
+/-- `_get_v` with the `sigma_k is None / sigma_k.ndim == 1 / else` dispatch from the text -/
+theorem getV_coded_eq (n : ℕ) (s : SigmaK ℝ) : getVCoded n s = getV n s ∧ getVCoded n s = vSpec n s.entry :=
+  ⟨getVCoded_eq n s, (getVCoded_eq n s).trans (getV_entry n s)⟩
+
+/-- `_cosine_cov_weighted` solves with `V` exactly when a `sigma_k` is given (vector or matrix)
+    and takes the linear-CKA path exactly when it is omitted -/
+theorem cov_route_iff (s : SigmaK ℝ) : covRouteOf s = 1 ↔ s.ndim ≠ 0 := by
+  cases s <;> simp [covRouteOf, Rsa.Gen.C03.covRouteNone, Rsa.Gen.C03.covRoute, SigmaK.ndim]
+
+/-- the number of conditions is recovered from the vector length (both helper functions) -/
+theorem nCond_recovery (n : ℕ) (hn : 2 ≤ n) :
+    Rsa.Gen.C03.nFromReduced (triLen n) = n ∧ Rsa.Gen.C03.nFromLength (triLen n) = n :=
+  ⟨nFromReduced_triLen n hn, nFromLength_triLen n hn⟩
+
+/-- the linear-CKA path with *every* scalar step from `_cov_weighting`'s text
+    (`-0.5·d`, `(row+column sums)/n`, `w − (m_i+m_j) + mm`, `Σ 2w/n²`) is the double centring of
+    `−D/2`, hence (section 9) the whitened cosine -/
+theorem cka_steps_coded_eq (n : ℕ) (r : List ℝ) :
+    ckaKernel n r = centreKernel n (halfNeg n r) ∧ covWeighting3 n r = covWeighting n r :=
+  ⟨ckaKernel_eq n r, covWeighting3_eq n r⟩
+
+/-- the whole dispatch of `compare(.., 'cosine_cov', sigma_k)`: `n_cond` from the length, route and
+    form of `V` from the text -/
+theorem whitened_dispatch_eq (n : ℕ) (hn : 2 ≤ n) (s : SigmaK ℝ) (r1 r2 : List ℝ)
+    (h1 : r1.length = triLen n) :
+    whitenedCosDispatch s r1 r2 =
+      if s.ndim = 0 then some (whitenedCosFast n r1 r2) else whitenedCos (getV n s) r1 r2 := by
+  unfold whitenedCosDispatch
+  rw [h1, nFromReduced_triLen n hn, nFromLength_triLen n hn, getVCoded_eq, cosineCoded_eq,
+    covWeighting3_eq, covWeighting3_eq]
+  cases s <;> simp [covRouteOf, Rsa.Gen.C03.covRouteNone, Rsa.Gen.C03.covRoute, SigmaK.ndim,
+    whitenedCosFast]
+
+/-- the Bures expressions with clamp, denominator, ratio and kernel steps from the text -/
+theorem bures_coded_eq (eigh : List (List ℝ) → List ℝ × List (List ℝ)) (A B : List (List ℝ))
+    (n : ℕ) (r : List ℝ) :
+    buresSimCoded eigh A B = buresSim eigh A B ∧
+    sqBuresMetricCoded eigh A B = sqBuresMetric eigh A B ∧
+    buresKernelRows n r = kernelRows n r :=
+  ⟨buresSimCoded_eq eigh A B, sqBuresMetricCoded_eq eigh A B, buresKernelRows_eq n r⟩
+
+/-! ## 16. `compare_neg_riemannian_distance`: the parts that are logic -/
+
+/-- `sigma_k_hat = P Σ Pᵀ` with `P = [−1 | I]` is the covariance of the differences to
+    condition 0; for `sigma_k = None` it is `I + 11ᵀ` -/
+theorem sigmaHat_entry (n : ℕ) (m : List (List ℝ)) (a b : ℕ) (ha : a + 1 < n) (hb : b + 1 < n) :
+    ((sigmaHat n (SigmaK.mat m)).getD a []).getD b 0
+      = (SigmaK.mat m).entry (a + 1) (b + 1) - (SigmaK.mat m).entry (a + 1) 0
+        - (SigmaK.mat m).entry 0 (b + 1) + (SigmaK.mat m).entry 0 0 ∧
+    ((sigmaHat n (SigmaK.none : SigmaK ℝ)).getD a []).getD b 0 = (if a = b then 1 else 0) + 1 := by
+  have ha' : a < n - 1 := by omega
+  have hb' : b < n - 1 := by omega
+  constructor
+  · unfold sigmaHat
+    rw [rows_entry (n - 1) _ a b ha' hb']
+    show xi n (SigmaK.mat m) (a + 1, 0) (b + 1, 0) = _
+    rw [xi_eq_spec n (SigmaK.mat m) _ _ ⟨ha, by omega⟩ ⟨hb, by omega⟩]
+    rfl
+  · unfold sigmaHat
+    rw [rows_entry (n - 1) _ a b ha' hb']
+    show xi n (SigmaK.none : SigmaK ℝ) (a + 1, 0) (b + 1, 0) = _
+    rw [xi_eq_spec n (SigmaK.none : SigmaK ℝ) _ _ ⟨ha, by omega⟩ ⟨hb, by omega⟩]
+    simp only [xiSpec, SigmaK.entry]
+    by_cases h : a = b <;> simp [h]
+
+/-- the Gram transform `vector @ T.T` (coefficients `0.5`, `−0.5` and the sign flip of `pairs`
+    regenerated from the text): the entry for conditions `i, j ≠ 0` is `(d_0i + d_0j − d_ij)/2` -/
+theorem riemGram_value (di dj dij f : ℝ) :
+    Rsa.Gen.C03.riemGram di dj dij = (di + dj - dij) / 2 ∧ Rsa.Gen.C03.riemNeg f = -f :=
+  ⟨riemGram_eq di dj dij, riemNeg_eq f⟩
+
+/-- what is not proved at list level: that `riemGRows` (diag + squareform of `vector @ T.T`) equals
+    `riemGSpec` entry by entry (index arithmetic of the condensed layout); checked exactly by the
+    correspondence (`kind: riem`) -/
+def riemG_full : Prop := ∀ (n : ℕ) (r : List ℝ), r.length = triLen n → riemGRows n r = riemGSpec n r
+
+example : riemGRows 4 ([1, 2, 3, 4, 5, 6] : List ℚ) = riemGSpec 4 [1, 2, 3, 4, 5, 6] := by decide +kernel
+
+noncomputable local instance hasLogRealC03 : HasLog ℝ := ⟨Real.log⟩
+
+/-- `_riemannian_distance` with the eigen-solver and the Nelder–Mead search as parameters: the
+    result is minus the objective at the returned point, never positive, and not below minus the
+    objective at the start `(0, 0)` for every search that does not return a worse point -/
+theorem negRiem_contract (geig : ℝ × ℝ → List ℝ)
+    (search : (ℝ × ℝ → ℝ) → ℝ × ℝ → ℝ × ℝ) :
+    negRiem geig search = -(riemObjective geig (search (riemObjective geig) (0, 0))) ∧
+    negRiem geig search ≤ 0 ∧
+    (riemObjective geig (search (riemObjective geig) (0, 0)) ≤ riemObjective geig (0, 0) →
+      -(riemObjective geig (0, 0)) ≤ negRiem geig search) := by
+  have e : negRiem geig search = -(riemObjective geig (search (riemObjective geig) (0, 0))) :=
+    riemNeg_eq _
+  have hnn : ∀ t, 0 ≤ riemObjective geig t := fun t => Real.sqrt_nonneg _
+  refine ⟨e, by rw [e]; linarith [hnn (search (riemObjective geig) (0, 0))], fun h => by rw [e]; linarith⟩
+
+/-! ## 17. Bures under routine contracts (replaces the two assumed trace identities) -/
+
+section bures
+variable {n : ℕ} {eigh : List (List ℝ) → List ℝ × List (List ℝ)}
+
+/-- **symmetric**: only needs that `Asq`, `Bsq` square back to `A`, `B` and that the eigenvalue
+    routine returns the spectrum — no trace identity assumed -/
+theorem bures_symm (he : EigContract n eigh) {A B : List (List ℝ)}
+    (hA : SqrtContract n eigh A) (hB : SqrtContract n eigh B) :
+    buresSim eigh A B = buresSim eigh B A ∧ sqBuresMetric eigh A B = sqBuresMetric eigh B A := by
+  apply bures_symm_partial
+  rw [fidelity_bridge he hA hB.1, fidelity_bridge he hB hA.1]
+  exact Rsa.Bures.fidelity_symm _ _ _ _ hA.2.2 hB.2.2
+
+/-- **similarity 1 / squared metric 0 with itself** for a positive semidefinite kernel with
+    positive trace -/
+theorem bures_self (he : EigContract n eigh) {A : List (List ℝ)} (hA : SqrtContract n eigh A)
+    (hpsd : (toM n A).PosSemidef) (hpos : 0 < Compare.trace A) :
+    buresSim eigh A A = 1 ∧ sqBuresMetric eigh A A = 0 := by
+  have hf : fidelity eigh A A = Compare.trace A := by
+    rw [fidelity_bridge he hA hA.1, Rsa.Bures.fidelity_self _ _ hA.2.2 hpsd, trace_toM hA.1]
+  exact ⟨bures_self_partial eigh A hf hpos, bures_metric_self_partial eigh A hf⟩
+
+/-- **unchanged when the conditions of both kernels are permuted together** -/
+theorem bures_cond_perm (he : EigContract n eigh) {A B A' B' : List (List ℝ)}
+    (hA : SqrtContract n eigh A) (hB : IsSq n B) (hA' : SqrtContract n eigh A') (hB' : IsSq n B')
+    (π : Equiv.Perm (Fin n))
+    (eA : ∀ i j : Fin n, ent A' i j = ent A (π i) (π j))
+    (eB : ∀ i j : Fin n, ent B' i j = ent B (π i) (π j)) :
+    buresSim eigh A' B' = buresSim eigh A B ∧ sqBuresMetric eigh A' B' = sqBuresMetric eigh A B := by
+  have mA : toM n A' = (toM n A).submatrix π π := by funext i j; exact eA i j
+  have mB : toM n B' = (toM n B).submatrix π π := by funext i j; exact eB i j
+  have hf : fidelity eigh A' B' = fidelity eigh A B := by
+    rw [fidelity_bridge he hA' hB', fidelity_bridge he hA hB, mB]
+    exact Rsa.Bures.fidelity_perm _ _ _ _ π hA.2.2 (mA ▸ hA'.2.2)
+  have tA : Compare.trace A' = Compare.trace A := by
+    rw [trace_toM hA'.1, trace_toM hA.1, mA, Rsa.Bures.trace_perm]
+  have tB : Compare.trace B' = Compare.trace B := by
+    rw [trace_toM hB', trace_toM hB, mB, Rsa.Bures.trace_perm]
+  unfold buresSim sqBuresMetric
+  rw [hf, tA, tB]
+  exact ⟨rfl, rfl⟩
+
+/-- the similarity is never negative -/
+theorem bures_nonneg (he : EigContract n eigh) {A B : List (List ℝ)}
+    (hA : SqrtContract n eigh A) (hB : IsSq n B) : 0 ≤ buresSim eigh A B := by
+  unfold buresSim
+  rw [fidelity_bridge he hA hB]
+  exact div_nonneg (Rsa.Bures.trSqrtSpec_nonneg _) (Real.sqrt_nonneg _)
+
+/-- still open: the upper bound `buresSim ≤ 1` (`tr√(√A B √A) ≤ √(tr A · tr B)`, a trace-norm
+    Hölder inequality) — correspondence + oracle only -/
+def bures_upper_full : Prop :=
+  ∀ (n : ℕ) (eigh : List (List ℝ) → List ℝ × List (List ℝ)) (A B : List (List ℝ)),
+    EigContract n eigh → SqrtContract n eigh A → SqrtContract n eigh B →
+    (toM n A).PosSemidef → (toM n B).PosSemidef → buresSim eigh A B ≤ 1
+
+end bures
+
+-- non-vacuity of the square-root contract at the matrix level
+example : Rsa.Bures.IsSqrtOf (Matrix.diagonal ![(2 : ℝ), 3]) (Matrix.diagonal ![(4 : ℝ), 9]) := by
+  unfold Rsa.Bures.IsSqrtOf
+  rw [Matrix.diagonal_mul_diagonal]
+  congr 1
+  funext i
+  fin_cases i <;> norm_num
+
+/-! ## 18. `V` is positive semidefinite for every Gram pattern covariance `sigma_k = A Aᵀ` -/
+
+/-- for `sigma_k = A Aᵀ` (`A` any real `n × M` matrix — every covariance matrix has this form) the
+    covariance `V` of the RDM entries is symmetric positive semidefinite, for every number of
+    conditions: `fᵀVf = Σ_{m,m'} (Σ_p f_p u_p(m) u_p(m'))²` with `u_p = Aᵀ(e_i − e_j)` -/
+theorem getV_gram_psd (n M : ℕ) (a : ℕ → ℕ → ℝ) (m : List (List ℝ))
+    (hm : ∀ i j, i < n → j < n → (SigmaK.mat m).entry i j = gramOf M a i j) :
+    SymPosSemidef (getV n (SigmaK.mat m)) (triLen n) := by
+  rw [getV_entry, vSpec_congr n _ _ hm]
+  exact symPosSemidef_vSpec_gram n M a
+
+/-- hence for every symmetric positive *semi*definite `V` (in particular for every Gram
+    `sigma_k`, `getV_gram_psd`) the whitened similarity is symmetric and within [-1, 1] — the
+    strict definiteness hypothesis of section 6 is only needed for "1 with itself" -/
+theorem whitened_psd_props {V : List (List ℝ)} {m : ℕ} (hV : SymPosSemidef V m)
+    (r1 r2 s1 s2 : List ℝ) (l1 : s1.length = m) (l2 : s2.length = m)
+    (e1 : matVec V s1 = r1) (e2 : matVec V s2 = r2) :
+    wcosFrom r1 r2 s1 s2 = wcosFrom r2 r1 s2 s1 ∧
+    (∀ v, wcosFrom r1 r2 s1 s2 = some v → |v| ≤ 1) := by
+  have a : dot r1 s2 = Q V m (fun i => s1.getD i 0) (fun i => s2.getD i 0) := by
+    subst e1; rw [dot_comm, dot_matVec hV.rows hV.cols s2 s1 l2 l1, Q_symm hV.symm]
+  have b : dot r2 s1 = Q V m (fun i => s1.getD i 0) (fun i => s2.getD i 0) := by
+    subst e2; rw [dot_comm, dot_matVec hV.rows hV.cols s1 s2 l1 l2]
+  have c : dot r1 s1 = Q V m (fun i => s1.getD i 0) (fun i => s1.getD i 0) := by
+    subst e1; rw [dot_comm, dot_matVec hV.rows hV.cols s1 s1 l1 l1]
+  have d : dot r2 s2 = Q V m (fun i => s2.getD i 0) (fun i => s2.getD i 0) := by
+    subst e2; rw [dot_comm, dot_matVec hV.rows hV.cols s2 s2 l2 l2]
+  constructor
+  · rw [wcosFrom_eq, wcosFrom_eq, a, b]
+    by_cases h : 0 < dot r1 s1 ∧ 0 < dot r2 s2
+    · rw [if_pos h, if_pos h.symm, div_right_comm]
+    · rw [if_neg h, if_neg (fun h' => h h'.symm)]
+  · intro v hv
+    rw [wcosFrom_eq] at hv
+    split_ifs at hv with h
+    cases hv
+    obtain ⟨h1, h2⟩ := h
+    have p1 := Real.sqrt_pos.mpr h1
+    have p2 := Real.sqrt_pos.mpr h2
+    rw [div_div, abs_div, abs_of_pos (mul_pos p1 p2), div_le_one (mul_pos p1 p2),
+      ← Real.sqrt_mul h1.le]
+    apply Real.abs_le_sqrt
+    rw [sq, a, c, d]
+    exact Q_sq_le_psd hV _ _
+
+-- non-vacuity: the identity covariance of two conditions is the Gram matrix of `A = I`
+example : ∀ i j, i < 2 → j < 2 → (SigmaK.mat [[(1 : ℝ), 0], [0, 1]]).entry i j
+    = gramOf 2 (fun i m => if i = m then 1 else 0) i j := by
+  intro i j hi hj
+  interval_cases i <;> interval_cases j <;> simp [SigmaK.entry, gramOf, Finset.sum_range_succ]
 
 end Rsa.Props.C03
